@@ -92,6 +92,25 @@ pub fn run(args: &Args) -> i32 {
             distinct += 2;
         }
     }
+    // --- exhaustive single-character sweep: a valid 40-digit string with ONE position (first, second, middle, odd, last)
+    // replaced by every code point below 0x180 and a few beyond: accepted iff that character is a hex digit
+    // (case folding tricks, arithmetic on bytes, table look-ups go wrong for particular characters only)
+    {
+        let id = rng.id();
+        let base: Vec<char> = crate::bencode::hex(&id).chars().collect();
+        let extra = [0x212Au32, 0xFF10, 0xFF21, 0xFF41, 0x0660, 0x1D7CE, 0x2080, 0x00B2, 0x0131, 0x017F];
+        for pos in [0usize, 1, 20, 21, 39] {
+            for cp in (0u32..0x180).chain(extra.iter().cloned()) {
+                if let Some(ch) = char::from_u32(cp) {
+                    let mut c = base.clone();
+                    c[pos] = ch;
+                    let s: String = c.into_iter().collect();
+                    out.line(&parse_case(&s));
+                    distinct += 1;
+                }
+            }
+        }
+    }
     // --- hex strings: valid 40-digit strings with <= 2 positions replaced by a character class, length deviations
     let classes: Vec<&str> = vec!["A", "F", "+", "-", " ", "g", "G", "z", "é", "ß", "€", "😀", "0", "x", "\u{0}", "\n"];
     let nparse = if thorough { 6000 } else { 1200 };
